@@ -397,6 +397,8 @@ func (g *gen) genCase(n int) {
 		g.tour()
 	case n <= 6 || n%23 == 5:
 		g.sparse(n)
+	case n <= 12 || n%89 == 11:
+		g.refuseFlood(n - 7)
 	case n%97 == 3:
 		g.flood()
 	case x < 38:
@@ -918,4 +920,53 @@ func (g *gen) sparse(n int) {
 			g.do("tick %d 64 0 0 %d", k, g.allowBit(g.w.peers[k]))
 		}
 	}
+}
+
+// refuseFlood: the remote has stopped reading (the writer stays more than half full: it is
+// "congested", but a write still finds room) and keeps sending requests we refuse — before
+// the metadata, while choked, longer than 128 kB, beyond the 250-entry queue — to a Fast
+// and to a non-Fast peer.  Whatever the implementation does with the refusals, the peer
+// must not accumulate anything (oracle queue-unbounded:any-field over every field).
+func (g *gen) refuseFlood(v int) {
+	r := g.r
+	if v < 0 {
+		v = -v
+	}
+	v %= 6
+	fast := v < 4
+	state := []int{0, 1, 2, 3, 1, 3}[v] // 0 no metadata, 1 choked, 2 too long, 3 overflow
+	g.reset(false, 524288)
+	g.setupStore(true)
+	k := g.addPeer(fast, state != 0, 64)
+	g.ext0(k, reqqValues[r.Intn(len(reqqValues))])
+	if state >= 2 || r.Bool() {
+		g.do("msg %d 64 0 Interested", k)
+	}
+	if state >= 2 {
+		g.do("unch %d 64 0 1", k)
+	}
+	if state == 3 {
+		for i := 0; i < reqQ; i++ {
+			g.do("msg %d 64 0 Request %d %d 16384", k, r.Intn(g.np()), 16384*r.Intn(2))
+		}
+	}
+	for i := 0; i < 700; i++ {
+		free := 1 + r.Intn(31) // congested (more than half full), never full
+		l := uint32(16384)
+		if state == 2 {
+			l = r.PickU32(131073, 1048576, 4294967295)
+		}
+		g.do("msg %d %d 0 Request %d %d %d", k, free, r.Intn(g.np()), 16384*r.Intn(2), l)
+		if r.Chance(3) {
+			hp := g.w.peers[k]
+			g.do("tick %d %d 0 1 %d", k, free, g.allowBit(hp))
+		}
+	}
+	switch r.Intn(3) {
+	case 0:
+		g.do("unch %d 64 0 0", k)
+	case 1:
+		g.do("msg %d 64 0 NotInterested", k)
+	}
+	g.do("exit %d", k)
 }
